@@ -156,3 +156,20 @@ Example C12_example :
   | _ => False
   end.
 Proof. vm_compute. repeat split. Qed.
+
+(* The narrower literal types (RenumberFit.v): the code hands every new code to L::from_code with a truncating cast; the
+   model uses unbounded codes.  For every odd bound maxc (all Lit::MAX_CODE are 2^k - 1) on the literals of the graph, a
+   run that returns a circuit never produces a code above maxc, so the cast never truncates. *)
+From Flussab Require Import RenumberFit.
+Theorem C12_result_codes_fit_the_literal_type : forall cfg a o r maxc,
+  renumber_aig cfg a = RnOk o r ->
+  N.odd maxc = true ->
+  (forall l, In l (aig_lits a) -> (l <= maxc)%N) ->
+  (forall t, In t (ordered_all_lits o) -> (t <= maxc)%N) /\
+  (forall l t, lm_get (r_map r) l = Some t -> (t <= maxc)%N) /\
+  (forall k f, r_map r !! k = Some f -> (f <= maxc)%N) /\
+  (r_last r <= maxc)%N /\
+  (2 * o_maxvar o + 1 <= maxc)%N.
+Proof. exact renumber_codes_fit. Qed.
+Print Assumptions C12_result_codes_fit_the_literal_type.
+
